@@ -22,3 +22,9 @@ Proof.
   revert l; induction y as [|y IH]; intros l; simpl; [reflexivity|].
   destruct l; [destruct x; reflexivity|]. apply IH.
 Qed.
+
+Lemma app_eq_app_length {A} (a b c d : list A) : length a = length c -> a ++ b = c ++ d -> a = c /\ b = d.
+Proof.
+  revert c; induction a as [|x a IH]; intros [|y c] Hl He; simpl in *; try lia; [auto|].
+  inversion He as [[Hx Hr]]. destruct (IH c ltac:(lia) Hr) as [-> ->]. auto.
+Qed.
